@@ -53,7 +53,9 @@ def run_behaviour(beh, door: str, rng: random.Random, durations=(3, 3)) -> Dict[
         """returns response"""
         use_action = door == "action" or (door == "mixed" and rng.random() < 0.5)
         if ev == "CreateFile":
-            return act("node-file-create", folder_name=fo, file_name=fi) if use_action else req(["create", "file", fo, fi, False])
+            # (the request's last element is `force`: a forced creation replaces a LIVE file of that name - one live file
+            # of the name afterwards, as without force - and is an ordinary creation otherwise)
+            return act("node-file-create", folder_name=fo, file_name=fi) if use_action else req(["create", "file", fo, fi, rng.random() < 0.4])
         if ev == "CreateFolder":
             return act("node-folder-create", folder_name=fo) if use_action else req(["create", "folder", fo])
         if ev == "DeleteFile":
